@@ -525,6 +525,7 @@ class World(object):
         self.server_static = None
         self.chunker = None        # optional: fn(bytes) -> [chunks] for server->client bytes in the full wiring
         self.double_close_report = False
+        self.hold_raw = False      # when set, the responder's handshake reply is withheld (connection stuck mid-handshake)
         self.hold_connects = False # when set, pending 'connected' callbacks are not delivered
         self.with_probes = False   # full wiring: insert recording probes above the network layer and above the application
 
@@ -672,7 +673,7 @@ class World(object):
             if q:
                 acts.append(("srv", phone))
         for phone, q in self.raw_out.items():
-            if q:
+            if q and not self.hold_raw:
                 acts.append(("raw", phone))
         for phone, q in self.server.outbound.items():
             c = self.clients.get(phone)
